@@ -202,20 +202,22 @@ class EvolveStateVector(torch.autograd.Function):
             krylov_tolerance (float): tolerance for krylov_exp
             pulser_lindblads: unused, present for compatibility with EvolveDensityMatrix
         """
-        # krylov_exp normalises its input tensor in place: the backward pass needs
-        # the state this step starts from, with its own norm.
-        state_in = state.clone() if any(ctx.needs_input_grad[1:5]) else state
+        # krylov_exp normalises its input tensor in place. While gradients are
+        # tracked that tensor is part of the autograd graph (it is the previous
+        # step's output, observables were computed from it, and the backward pass
+        # needs it with its own norm): evolve a copy.
+        work_state = state.clone() if any(ctx.needs_input_grad) else state
         res, ham = EvolveStateVector.evolve(
             dt,
             omegas,
             deltas,
             phis,
             interaction_matrix,
-            state,
+            work_state,
             krylov_tolerance,
             pulser_lindblads,
         )
-        ctx.save_for_backward(omegas, deltas, phis, interaction_matrix, state_in)
+        ctx.save_for_backward(omegas, deltas, phis, interaction_matrix, state)
         ctx.dt = dt
         ctx.tolerance = krylov_tolerance
         return res, ham
@@ -377,7 +379,10 @@ class EvolveStateVector(torch.autograd.Function):
             def op(x: torch.Tensor):
                 return (1j * dt) * (ham * x)
 
-            grad_state_in = krylov_exp(op, grad_state_out.detach(), tolerance, tolerance)
+            # krylov_exp destroys its input: never hand it autograd's gradient buffer
+            grad_state_in = krylov_exp(
+                op, grad_state_out.detach().clone(), tolerance, tolerance
+            )
 
         return (
             None,
